@@ -1339,6 +1339,13 @@ func main() {
 	writeIfChanged(filepath.Join(*out, "GenWaitSites.v"), w.Bytes())
 	fmt.Printf("go2v: GenWaitSites.v %d wait sites in %d functions\n", nw, nf)
 
+	// GenLockProgs.v (C05): lock programs, mutex table, lock acquisitions of the call path (lockprogs.go)
+	w.Reset()
+	fmt.Fprintf(&w, header, *repo)
+	nlp, nlm, nls := root.lockProgsSafe(&w, *repo)
+	writeIfChanged(filepath.Join(*out, "GenLockProgs.v"), w.Bytes())
+	fmt.Printf("go2v: GenLockProgs.v %d lock programs, %d mutexes, %d lock acquisitions on the caller's path\n", nlp, nlm, nls)
+
 	// GenFrameSites.v (C01): NewFrame call sites, FramePool implementations (framesites.go)
 	w.Reset()
 	fmt.Fprintf(&w, header, *repo)
